@@ -7,14 +7,16 @@ open LunaVerif LunaVerif.Proto LunaVerif.StreamOutEndpoint
 rx_complete rx_invalid rx_ready_for_response rx_pid_toggle tok_endpoint tok_is_out tok_is_ping
 tok_ready_for_response clear_halt ready tok_new_token`; output line: `ack nak valid payload first last legal`,
 where `legal` = the history up to and including this cycle is accepted by the acceptor of `LegalHost`
-(`Phase.step` of `Lemmas/C13Host.lean`, the hypothesis of the history-level theorems). -/
+(`Phase.step` of `Lemmas/C13Host.lean`, the hypothesis of the history-level theorems).  `clear_halt`: 1 = the
+request names this OUT endpoint; 2 / 3 = the harness drove a ClearFeature(ENDPOINT_HALT) naming the IN endpoint of
+this number / another endpoint, which is no clear-halt for this endpoint. -/
 def main : IO Unit :=
   runDriver (σ := Config × State × Option Phase)
     (fun cfg => (⟨fld cfg 0, fld cfg 1, fld cfg 2⟩, init, some Phase.idle))
     (fun (c, s, ph) i =>
       let inp : In := ⟨⟨n2b (fld i 0), n2b (fld i 1), fld i 2, n2b (fld i 3), n2b (fld i 4)⟩,
                        n2b (fld i 5), fld i 6, fld i 7, n2b (fld i 8), n2b (fld i 9), n2b (fld i 10),
-                       n2b (fld i 13), n2b (fld i 11), n2b (fld i 12)⟩
+                       n2b (fld i 13), fld i 11 == 1, n2b (fld i 12)⟩
       let (s', o) := step c s inp
       let ph' := ph.bind (fun p => p.step c inp)
       ((c, s', ph'), [b2n o.ack, b2n o.nak, b2n o.valid, o.data, b2n o.first, b2n o.last, b2n ph'.isSome]))
